@@ -4,7 +4,7 @@
     `segK table x (1024·j)`, its value carries nothing but zeros above byte 1023) — preserved by EVERY write of the
     model (SETBIT incl. the legacy conversion, BITCLEAR in both layouts, BEXPIRE / BPERSIST) and by any write to a key of
     another type, hence true in every reachable state;
-  * under `WF` the iterator-based repaired BITCOUNT (`bitcountFixed`) is the prescribed one (`bitcountSpec`);
+  * (BitFixed.lean) under `WF` the BITCOUNT of the code (`bitcount`: iterator, break behind `end`, clamped cuts) is the prescribed one (`bitcountSpec`);
   * whenever the code's BITCOUNT (`bitcount`) answers a number and no stored segment lies behind the segment of `end`,
     that number is the prescribed one; what it adds otherwise.
 -/
@@ -142,32 +142,54 @@ theorem chunks_ok : ∀ (fuel : Nat) (v : Bytes) (j : Nat), ∀ c ∈ chunks fue
         obtain ⟨i, h1, h2, h3, h4⟩ := chunks_ok fuel _ (j + 1) c hc
         exact ⟨i, by omega, by omega, h3, h4⟩
 
-theorem WF.convert {m : List KV} (W : WF m) (table rk : Bytes) (size0 : Int) (ht : table.length < 65536)
-    (hlen : ∀ v, get m (strK table rk) = some v → v.length < 1125899906842624) (m1 : List KV) (size1 : Int)
-    (h : convert m table rk size0 = .done m1 size1) : WF m1 := by
-  unfold Z.BitExec.convert at h
+theorem WF.convert {m : List KV} (W : WF m) (table rk : Bytes) (ht : table.length < 65536)
+    (hlen : ∀ v, get m (strK table rk) = some v → v.length < 1125899906842624) : WF (convert m table rk).1 := by
+  unfold Z.BitExec.convert
   cases hg : get m (strK table rk) with
-  | none => rw [hg] at h; simp only at h; cases h; exact W
+  | none => exact W
   | some v =>
-    rw [hg] at h
-    simp only at h
-    split at h
-    · cases h; exact W
-    · split at h
-      · cases h
-      · cases h
-        apply W.applyW
-        intro o ho
-        rcases List.mem_append.mp ho with ho | ho
-        · obtain ⟨c, hc, rfl⟩ := List.mem_map.mp ho
-          intro _
-          have := chunks_ok _ _ 0 c (by simpa using hc)
-          obtain ⟨i, _, h2, h3, h4⟩ := this
-          have hl := hlen v hg
-          refine ⟨table, rk, i, by rw [h3], ht, ?_, ZeroTail.of_short h4, Nat.le_trans h4 (by omega)⟩
-          have hb : (List.take (v.length - Gen.cTsLen) v).length ≤ v.length := by rw [List.length_take]; omega
-          omega
-        · simp only [List.mem_singleton] at ho; subst ho; trivial
+    simp only
+    split
+    · exact W
+    · apply W.applyW
+      intro o ho
+      rcases List.mem_append.mp ho with ho | ho
+      · obtain ⟨c, hc, rfl⟩ := List.mem_map.mp ho
+        intro _
+        have := chunks_ok _ _ 0 c (by simpa using hc)
+        obtain ⟨i, _, h2, h3, h4⟩ := this
+        have hl := hlen v hg
+        refine ⟨table, rk, i, by rw [h3], ht, ?_, ZeroTail.of_short h4, Nat.le_trans h4 (by omega)⟩
+        have hb : (List.take (v.length - Gen.cTsLen) v).length ≤ v.length := by rw [List.length_take]; omega
+        omega
+      · simp only [List.mem_singleton] at ho; subst ho; trivial
+
+theorem WF.startOf {m : List KV} (W : WF m) (table rk : Bytes) (size0 : Int) (ok : Bool) (ht : table.length < 65536)
+    (hlen : ∀ v, get m (strK table rk) = some v → v.length < 1125899906842624) : WF (startOf m table rk size0 ok).1 := by
+  unfold Z.BitExec.startOf
+  split
+  · exact W
+  · exact W.convert table rk ht hlen
+
+/-- the size check of the conversion (`if int64(len(v)) != bmSize { panic(…) }`, `bmSize` = 0 + the chunk lengths) is dead:
+    the chunks the loop writes add up to the whole body -/
+theorem chunks_total : ∀ (fuel : Nat) (v : Bytes) (i : Int), v.length < fuel →
+    ((chunks fuel v i).map (fun c => c.2.length)).sum = v.length
+  | 0, _, _, h => by omega
+  | fuel + 1, v, i, h => by
+    unfold chunks
+    split
+    · rename_i he
+      have : v = [] := by simpa using he
+      subst this; rfl
+    · rename_i hne
+      have hpos : 0 < v.length := by
+        cases v with
+        | nil => simp at hne
+        | cons a t => simp
+      rw [List.map_cons, List.sum_cons, chunks_total fuel _ _ (by rw [List.length_drop, show Gen.cBitmapSegBytes.toNat = 1024 from rfl]; omega)]
+      rw [List.length_take, List.length_drop, show Gen.cBitmapSegBytes.toNat = 1024 from rfl]
+      omega
 
 /-! ### every bitmap write preserves `WF` -/
 
@@ -187,25 +209,21 @@ theorem WF.setbit {m : List KV} (W : WF m) (pol : Pol) (ts : Int) (table rk : By
       split
       · exact W
       · rename_i h ex size0 ok hm
-        split
-        · exact W
-        · rename_i m1 size1 hc
-          have W1 : WF m1 := by
-            by_cases hok : ok = true
-            · rw [if_pos hok] at hc; cases hc; exact W
-            · rw [if_neg hok] at hc; exact W.convert table rk size0 ht hlen m1 size1 hc
-          apply W1.applyW
-          intro o hmem
-          simp only [List.mem_cons, List.mem_nil_iff, or_false] at hmem
-          rcases hmem with rfl | rfl
-          · intro _
-            cases hg : get m1 (segK table (vkey pol rk (wHdr pol h ex ts).ver) (Gen.bitSetIndex offset)) with
-            | none => exact segPair_setbit _ _ _ _ _ ht ho' ZeroTail.nil (by simp)
-            | some v =>
-              have hp := (Z.Coll.get_eq_some_iff W1.sorted _ _).mp hg
-              obtain ⟨_, _, _, _, _, _, hz, hl⟩ := W1.seg _ hp (segK_head _ _ _)
-              exact segPair_setbit _ _ _ _ _ ht ho' hz hl
-          · intro hh; exact absurd hh (fun h => metaK_not_bit _ _ h)
+        simp only
+        have W1 : WF (Z.BitExec.startOf m table rk size0 ok).1 := W.startOf table rk size0 ok ht hlen
+        generalize (Z.BitExec.startOf m table rk size0 ok).1 = m1 at W1 ⊢
+        apply W1.applyW
+        intro o hmem
+        simp only [List.mem_cons, List.mem_nil_iff, or_false] at hmem
+        rcases hmem with rfl | rfl
+        · intro _
+          cases hg : get m1 (segK table (vkey pol rk (wHdr pol h ex ts).ver) (Gen.bitSetIndex offset)) with
+          | none => exact segPair_setbit _ _ _ _ _ ht ho' ZeroTail.nil (by simp)
+          | some v =>
+            have hp := (Z.Coll.get_eq_some_iff W1.sorted _ _).mp hg
+            obtain ⟨_, _, _, _, _, _, hz, hl⟩ := W1.seg _ hp (segK_head _ _ _)
+            exact segPair_setbit _ _ _ _ _ ht ho' hz hl
+        · intro hh; exact absurd hh (fun h => metaK_not_bit _ _ h)
 
 theorem WF.bitclear {m : List KV} (W : WF m) (pol : Pol) (ts : Int) (table rk : Bytes) : WF (bitclear pol m ts table rk).1 := by
   unfold Z.BitExec.bitclear
